@@ -11,11 +11,15 @@ func init() {
 				Reach: []string{"type entry checked", "shape checked", "abstract type", "input object"}, Functions: fns},
 			{Name: "sibling-selections", Pkg: ".", Files: files, Entry: "VerifIntrospectionSiblings", Mode: "seq", Native: true,
 				Reach: []string{"sibling selections checked"}, Functions: fns},
+			{Name: "request-history", Pkg: ".", Files: files, Entry: "VerifIntrospectionHistory", Mode: "seq", Native: true,
+				Quick: map[string]int{"hmax": 2}, Thorough: map[string]int{"hmax": 3},
+				Reach: []string{"history answered"}, Functions: fns},
 			{Name: "round-trip", Pkg: ".", Files: files, Entry: "VerifIntrospectionRoundTrip", Mode: "seq", Native: true,
 				Reach: []string{"round trip"}, Functions: fns},
 		},
 		Assume: []string{
 			"one merged scenario schema (interface, union, enum with a deprecated value, input object with defaults, custom scalar, deprecated field, argument default, mutation root); the type asked for and literal-vs-variable are symbolic choices",
+			"request-history: hmax introspection requests with the same text and operation name on one gateway, type name and includeDeprecated passed as variables with independently chosen values; then an ordinary operation that needs a required argument",
 			"gqlparser native; canonical schedule; encoding/json = abstract codec",
 		},
 		Outside: []string{"schemas other than the scenario", "partial selections other than the full type selection"},
